@@ -9,6 +9,8 @@ import (
 	"strconv"
 	"strings"
 
+	realssh "golang.org/x/crypto/ssh"
+
 	"go.brendoncarroll.net/p2p"
 	"go.brendoncarroll.net/p2p/s/memswarm"
 	"go.brendoncarroll.net/p2p/s/multiswarm"
@@ -415,6 +417,9 @@ func addrOracle(r *rand.Rand, n int, tier string, infile string) (cases int, fai
 			fail("EnvOK law broken by fmt.Sscan: %d scans to %d (%v)", p, q, err)
 		}
 	}
+	if oracleOffset == 0 {
+		cases += wildcardLocalAddrs(fail)
+	}
 	for i := 0; i < n; i++ {
 		g, a := genAddr(r, hx.Pick(r, 0, 1, 2, 3, 4))
 		roundTrip(g, a)
@@ -422,4 +427,58 @@ func addrOracle(r *rand.Rand, n int, tier string, infile string) (cases int, fai
 		arbitrary(g, mutateAddrText(r, text))
 	}
 	return cases, fails
+}
+
+// wildcardLocalAddrs (C16, "local addresses"): a node that listens on the unspecified address lists one local address
+// per interface address of the host (v4 and v6). Every one of them survives MarshalText and the node's own ParseAddr. The same for the layers that wrap such a transport.
+func wildcardLocalAddrs(fail func(string, ...any)) (cases int) {
+	check := func(name string, las []p2p.Addr, parse func([]byte) (p2p.Addr, error)) {
+		cases++
+		if len(las) == 0 {
+			fail("%s lists no local address", name)
+		}
+		for _, a := range las {
+			txt, err := a.MarshalText()
+			if err != nil {
+				fail("%s: MarshalText of the local address %v fails: %v", name, a, err)
+				continue
+			}
+			back, err := parse(txt)
+			if err != nil {
+				fail("%s lists the local address %q, which its own ParseAddr rejects: %v", name, txt, err)
+				continue
+			}
+			if txt2, _ := back.MarshalText(); string(txt2) != string(txt) || fmt.Sprint(back) != fmt.Sprint(a) {
+				fail("%s: local address %q parses to %q", name, txt, txt2)
+			}
+		}
+	}
+	for _, laddr := range []string{"0.0.0.0:0", "[::]:0", ":0"} {
+		if u, err := udpswarm.New(laddr); err == nil {
+			check("udpswarm on "+laddr, anyAddrs(u.LocalAddrs()), func(b []byte) (p2p.Addr, error) { return u.ParseAddr(b) })
+			u.Close()
+		}
+		if q, err := quicswarm.NewOnUDP(laddr, testPrivKey(77)); err == nil {
+			check("quicswarm on udp "+laddr, anyAddrs(q.LocalAddrs()), func(b []byte) (p2p.Addr, error) { return q.ParseAddr(b) })
+			q.Close()
+		}
+		if u, err := udpswarm.New(laddr); err == nil {
+			k := p2pkeswarm.New[udpswarm.Addr](u, testPrivKey(78))
+			check("p2pkeswarm on udp "+laddr, anyAddrs(k.LocalAddrs()), func(b []byte) (p2p.Addr, error) { return k.ParseAddr(b) })
+			k.Close()
+		}
+		signer, _ := realssh.NewSignerFromSigner(edKey(33))
+		if sw, err := sshswarm.New(laddr, signer); err == nil {
+			check("sshswarm on "+laddr, anyAddrs(sw.LocalAddrs()), func(b []byte) (p2p.Addr, error) { return sw.ParseAddr(b) })
+			sw.Close()
+		}
+	}
+	return cases
+}
+
+func anyAddrs[A p2p.Addr](xs []A) (ret []p2p.Addr) {
+	for _, x := range xs {
+		ret = append(ret, x)
+	}
+	return ret
 }
